@@ -30,6 +30,17 @@ def oracle(line: str, obs: Obs):
                                       "arriving while the I/O loop slept)", "event": ev[:200], "real": str(newc + [l for l in lines if l.startswith("OUT ")])[:300]})
             if not any(l == "STOPPED" for l in lines):
                 fails.append({"what": "stop() did not return normally", "event": ev[:200], "real": ""})
+        if any(l == "EVN stopflag" for l in lines):
+            # another thread's stop() raised the flag inside this step (during the reconnect pass): from there on nothing is
+            # dialled -- a connection object created for the dial is refused, never registered, and sends nothing
+            i0 = lines.index("EVN stopflag")
+            newc = {l.split(" ")[1]: kv(l) for l in lines[i0:] if l.startswith("CONN ") and l.split(" ")[1] not in state}
+            for c, d in newc.items():
+                sent = [l for l in lines[i0:] if l.startswith(f"OUT {c} ")]
+                if d.get("live") != "0" or sent:
+                    fails.append({"what": "a peer was dialled although stop() had already raised the stopping flag (stop() called "
+                                          "while the I/O thread was inside its reconnect pass)", "event": ev[:200],
+                                  "real": f"{c} {d} sent={sent[:2]}"})
         if t[0] == "stop":
             force = t[1] == "1"
             ready_before = [c for c, s in state.items() if s in ("READY", "WAITDWA") and live.get(c) == "1"]
@@ -178,6 +189,16 @@ def scenarios(rng: random.Random, tier: str):
     for pre_adv, dt in ((1, 1), (1, 2), (0, 2), (1, 5)):
         out.append(CFG + f" | start fail | adv {pre_adv} | stopin 1 {dt}")
         out.append(CFG + f" | start fail | acc | rx 1 " + nodegen.cer("peer1.x", "4", n(), n()) + f" | adv {pre_adv} | stopin 1 {dt}")
+    # stop() called by another thread while the I/O thread is inside its reconnect pass -- past the pass's own look at the
+    # stopping flag, in front of the dial: the peer is not dialled (its connection is refused, nothing is sent), with and
+    # without other connections, forced or not (real node only: the model's stop is one step)
+    mc = CFG.replace("NODE ", "NODE midconnect=1;")
+    for plan, redial in (("fail", "ok"), ("fail", "inp"), ("ok", "ok")):
+        lose = "" if plan == "fail" else " | rx 0 " + nodegen.cea(2001, "peer3.x", n(), n()) + " | eof 0"
+        for force, tmo in ((0, 4), (1, 1)):
+            out.append(mc + f" | start {plan}{lose} | dial {redial} | armstop | adv 2 | tick | stop {force} {tmo} adv_1")
+            out.append(mc + f" | start {plan}{lose} | acc | rx 1 " + nodegen.cer("peer1.x", "4", n(), n()) +
+                       f" | dial {redial} | armstop | adv 2 | tick | stop {force} {tmo} rx_1_{nodegen.dpa(n(), n(), 'peer1.x')} adv_1")
     # two ready peers whose DPAs arrive in the same pass of the I/O loop
     for tmo in (3, 6):
         pre2 = (CFG + " | start fail | acc | rx 1 " + nodegen.cer("peer1.x", "4", n(), n()) + " | acc | rx 2 " +
